@@ -481,7 +481,7 @@ def inline_fresh_helpers(tree: ast.Module, ref_mod: dict, protect_renames: bool 
                 if isinstance(f, ast.Attribute) and f.attr in (hname, mangled) and isinstance(f.value, ast.Name):
                     if f.value.id == "self" and inside_cls == cname:
                         return True
-                    if f.value.id == cname and kind == "static":
+                    if f.value.id in (cname, "cls") and kind == "static" and (f.value.id == cname or inside_cls == cname):
                         return True
                 return False
             # all call sites
@@ -689,7 +689,10 @@ def inline_fresh_helpers(tree: ast.Module, ref_mod: dict, protect_renames: bool 
                         new_stmts = pre + hb
                     elif len(rets) == 1 and hb[-1] is rets[0]:
                         new_stmts = pre + hb[:-1] + ([ast.Expr(value=rets[0].value)] if rets[0].value is not None and not _simple_arg(rets[0].value) else [])
-                    elif all(r.value is None for r in rets):
+                    elif all(r.value is None or _simple_arg(r.value) for r in rets):
+                        # the value the helper reports is not used here: its returns are plain exits
+                        for r in rets:
+                            r.value = None
                         conv = _guard_to_nested(hb)
                         if conv is not None:
                             new_stmts = pre + conv
